@@ -181,6 +181,83 @@ pub fn run(ctx: &mut Ctx) {
             ctx.check(matches!(r, Some(Ok(()))) && x.data_depth() == 1, || format!("C01 `{}`", src), || "Ok, one value".into(), || format!("{:?} depth {}", r.map(|r| r.is_ok()), x.data_depth()));
         }
     }
+    // `of` runs the clause whose value EQUALS the selector: values of different kinds (a flag and a number, nil and
+    // zero, a text and a vector) are never equal, whatever an ordering would say about them
+    {
+        let pool = ["1", "2", "0", "\"x\"", "\"1\"", "true", "false", "nil", "1.5", "[ 1 ]", "[ ]", "-1"];
+        for _ in 0..(ctx.n / 8).max(40) {
+            let sel = *ctx.rng.pick(&pool);
+            let k = ctx.rng.range(1, 4) as usize;
+            let vals: Vec<&str> = (0..k).map(|_| *ctx.rng.pick(&pool)).collect();
+            let mut src = format!("{} case", sel);
+            for (i, v) in vals.iter().enumerate() { src.push_str(&format!(" {} of {} endof", v, 100 + i)); }
+            let with_default = ctx.rng.bool();
+            if with_default { src.push_str(" 999"); }
+            src.push_str(" endcase");
+            let hit = vals.iter().position(|v| *v == sel);
+            let mut xs = base.clone();
+            let r = crate::guarded(|| xs.eval(&src));
+            let top = xs.get_data(0).and_then(|c| c.to_xint().ok());
+            let (want_depth, want_top) = match hit {
+                Some(i) => (1, Some(100 + i as i128)),
+                None => if with_default { (2, Some(999)) } else { (1, sel.parse::<i128>().ok()) },
+            };
+            let ok = matches!(r, Some(Ok(()))) && xs.data_depth() == want_depth && (top == want_top || (hit.is_none() && !with_default));
+            ctx.check(ok, || format!("C01 `{}`", src), || format!("Ok, depth {} top {:?} (the clause whose value equals the selector, else the default part)", want_depth, want_top),
+                || format!("{:?} depth {} top {:?}", r.map(|r| r.is_ok()), xs.data_depth(), top));
+            ctx.tag(if hit.is_some() { "shape:case-mixed:hit" } else { "shape:case-mixed:default" });
+            emit_program(ctx, &base, &src);
+        }
+    }
+    // counted loops whose bounds do not fit the index type cannot run: the program fails at its `do`, it does not run
+    // some other loop
+    {
+        let big = ["9223372036854775808", "-9223372036854775809", "18446744073709551616", "9223372036854775807", "-9223372036854775808", "170141183460469231731687303715884105727"];
+        for _ in 0..(ctx.n / 16).max(24) {
+            let a = if ctx.rng.chance(60) { big[ctx.rng.below(big.len())].to_string() } else { ctx.rng.range(-3, 4).to_string() };
+            let b = if ctx.rng.chance(60) { big[ctx.rng.below(big.len())].to_string() } else { ctx.rng.range(-3, 4).to_string() };
+            let src = match ctx.rng.below(3) {
+                0 => format!("{} {} do I break loop 7", a, b),
+                1 => format!(": w do I I 2 == if break then loop ; {} {} w 7", a, b),
+                _ => format!("5 {} {} do I drop break loop 7", a, b),
+            };
+            let fits = |t: &str| t.parse::<i128>().map(|v| v >= isize::MIN as i128 && v <= isize::MAX as i128).unwrap_or(false);
+            if !(fits(&a) && fits(&b)) {
+                let mut xs = base.clone();
+                let r = crate::guarded(|| xs.eval(&src));
+                ctx.check(matches!(r, Some(Err(Xerr::IntegerOverflow))), || format!("C01 `{}`", src), || "err IntegerOverflow at the `do` (a bound outside the index range)".into(), || format!("{:?}", r));
+                ctx.tag("shape:do-bounds:outside");
+            } else { ctx.tag("shape:do-bounds:inside"); }
+            emit_program(ctx, &base, &src);
+        }
+    }
+    // bodies of tens of thousands of instructions: a jump spans whatever its construct spans
+    {
+        let mut long = Xstate::boot().unwrap();
+        long.intercept_stdout(true);
+        long.set_insn_limit(Some(400000)).unwrap();
+        let n = *ctx.rng.pick(&[17000usize, 20000, 33000, 40000]);
+        let body = "1 drop ".repeat(n);
+        let progs: Vec<(String, Vec<i128>)> = vec![
+            (format!(": f {} ; 7 f 8", body), vec![7, 8]),
+            (format!("false if {} then 7", body), vec![7]),
+            (format!("true if 6 else {} then 7", body), vec![6, 7]),
+            (format!("0 begin 1 + dup 3 == if break then {} repeat 7", body), vec![3, 7]),
+            (format!("0 0 do {} loop 7", body), vec![7]),
+            (format!("2 0 do {} loop 7", body), vec![7]),
+            (format!("1 case 0 of {} 5 endof 1 of 6 endof endcase 7", body), vec![6, 7]),
+            (format!("0 begin 1 + dup 2 < while {} repeat 7", body), vec![2, 7]),
+        ];
+        for (src, want) in progs {
+            let mut xs = long.clone();
+            let r = crate::guarded(|| xs.eval(&src));
+            let got: Vec<Option<i128>> = (0..xs.data_depth()).rev().map(|i| xs.get_data(i).and_then(|c| c.to_xint().ok())).collect();
+            let ok = matches!(r, Some(Ok(()))) && got == want.iter().map(|v| Some(*v)).collect::<Vec<_>>();
+            let head: String = src.chars().take(60).collect();
+            ctx.check(ok, || format!("C01 long body ({} x `1 drop`): `{}...`", n, head), || format!("Ok, stack {:?}", want), || format!("{:?} stack {:?}", r.map(|r| r.is_ok()), got));
+            ctx.tag("shape:long-body");
+        }
+    }
     // oracle 2: zero-trip counted loops leave the stack as `drop drop` does; the body never runs
     for _ in 0..(ctx.n / 4).max(50) {
         let start = ctx.rng.range(-3, 6);
